@@ -612,7 +612,33 @@ func genGE(cfg *config, r *rng, i int, s *sink) string {
 }
 
 func corpusGE(cfg *config) []string {
-	return []string{
+	const R = 6378137.0
+	var past []string
+	// positions beside the middle of a line that is no longer than the tolerance, just inside it
+	// (the end caps do not cover this sliver), in several places and at several tolerances
+	onl := func(tol, pl, po, la1, lo1, la2, lo2 float64) {
+		past = append(past, "onl "+hexFloats(tol, R, pl, po, la1, lo1, la2, lo2, gcSegDistLL(pl, po, la1, lo1, la2, lo2, R)))
+	}
+	onl(10, 50.8579729, -0.7525288, 50.857928, -0.752664, 50.8580178, -0.752664)
+	onl(10, 50.858018196, -0.752610082, 50.857928, -0.752664, 50.857939, -0.752523)
+	for _, c := range []struct{ lat, lon, brg, length, abeam float64 }{{-33.5, 151.2, 37, 10, 9.5}, {65, 20, 110, 1.94, 1.9}, {12.25, -70.5, 300, 6, 9.5}} {
+		a1, o1 := offsetPoint(c.lat, c.lon, c.brg+180, c.length/2, R)
+		a2, o2 := offsetPoint(c.lat, c.lon, c.brg, c.length/2, R)
+		pl, po := offsetPoint(c.lat, c.lon, c.brg+90, c.abeam, R)
+		for _, f := range []float64{1.03, 1.06, 1.1, 1.2, 2} {
+			onl(c.abeam*f, pl, po, a1, o1, a2, o2)
+		}
+	}
+	// points a few kilometres inside the horizon but more than a quarter of the equator away
+	for _, c := range [][4]float64{{90, 0, -0.2535333705929389, 50}, {60, 10, 29.952596644545988, -170}, {-90, 30, 0.1992712105183544, -120},
+		{55, -3, 34.994389488025, 174.555019108333}, {30, 100, 60.051567190088726, -80}, {-75, 140, -14.611046147438328, -50.34911638776293},
+		{80, 20, -0.21857060911032866, 109.98588384966472}} {
+		var back, m12 float64
+		geodesic.WGS84.Inverse(c[0], c[1], c[2], c[3], &back, nil, nil)
+		geodesic.WGS84.GenInverse(c[0], c[1], c[2], c[3], nil, nil, nil, nil, &m12, nil, nil)
+		past = append(past, "rt "+hexFloats(c[0], c[1], c[2], c[3], back, m12))
+	}
+	return append(past, []string{
 		// the repository's own examples
 		"onl " + hexFloats(10, 6378137, 50.858006, -0.752614, 50.857928, -0.752664, 50.857939, -0.752523,
 			gcSegDistLL(50.858006, -0.752614, 50.857928, -0.752664, 50.857939, -0.752523, 6378137)),
@@ -628,5 +654,5 @@ func corpusGE(cfg *config) []string {
 		// recorded finding: a latitude of exactly 45 degrees (the geodesic dependency's sincosdx)
 		"rt " + hexFloats(10, 20, 45, 85, 7269223.2),
 		"sd " + hexFloats(-84.145064, -84.145064),
-	}
+	}...)
 }
